@@ -26,7 +26,7 @@ EXPLANATION = (
     "UnboundLocalError (definite assignment) - cross-reference only."
 )
 LEVEL_RULE = "one obligation per restore pattern / run_check site / typestate use / reachable raise statement"
-FLOORS = {"R1": 3, "R2": 5, "R3": 4, "R4": 40}
+FLOORS = {"R1": 2, "R2": 5, "R3": 4, "R4": 40}
 
 DOCUMENTED = {"SchemaError", "SchemaErrors", "SchemaDefinitionError", "SchemaInitError", "ParserError"}
 # raise sites outside the documented set, confirmed by reading (function short name, exception class) -> reason
@@ -49,8 +49,46 @@ CONFIRMED_RAISES = {
 }
 
 
+SELFTEST = """
+def unsafe(schema, x):
+    saved = schema.name
+    schema.name = x
+    work(schema)
+    schema.name = saved
+
+def safe(schema, x):
+    saved = schema.name
+    try:
+        schema.name = x
+        work(schema)
+    finally:
+        schema.name = saved
+
+def work(s):
+    return s
+"""
+
+
+def _detector_selftest():
+    """The expected number of unsafe restore patterns on a healthy tree is zero, so the detector
+    is exercised on a tiny positive example on every run."""
+    from ..effects import Effects
+    from ..index import Index
+    ix2 = Index.from_sources({"pandera/_selftest.py": SELFTEST})
+    eng2 = Effects(ix2).run(max_rounds=5)
+    r = eng2.restores
+    ok = r.get("pandera/_selftest.py::unsafe", {}).get((("P", "schema"), ("name",))) is False \
+        and r.get("pandera/_selftest.py::safe", {}).get((("P", "schema"), ("name",))) is True
+    kinds = {e.kind for e in eng2.summaries["pandera/_selftest.py::unsafe"].effects}
+    return ok and kinds == {"restored-unsafe"}
+
+
 def r1_restores(ctx):
     ix = ctx.ix
+    if not _detector_selftest():
+        raise AnalysisError("restore-pattern detector self-test failed")
+    ctx.ob("R1", "pva.selftest", "detector self-test: restore outside finally is flagged, restore in finally accepted", True,
+           "positive example matched")
     eng = engine(ix)
     n = 0
     for fq, rest in sorted(eng.restores.items()):
